@@ -6,6 +6,8 @@ value movement and pushed success flags of nested CALL / CALLCODE / DELEGATECALL
 or reverting frame leaves no state change", "a static call can never modify state" (EvmFrames.tla, model -> implementation).
 (3) memory, the return data buffer (EIP-211) and the precompiles 0x01-0x04 as call targets: copies never alias, the buffer after
 every CALL* / CREATE / CREATE2, RETURNDATACOPY bounds (EvmMemory.tla, model -> implementation).
+(4) the interpreter loop on raw bytes: the set of valid jump destinations (PUSH data is never a destination, at every alignment
+and across every bitmap byte), JUMP / JUMPI, stack under/overflow, truncated PUSH, same answer on the second (cached) run (EvmJump.tla).
 NOT decided: remaining-gas equality with the reference schedule, memory expansion cost / unaligned and huge offsets, the other
 precompiles, per-fork opcode availability beyond the transcribed set."""
 import evmcommon as ec
@@ -60,9 +62,23 @@ def run(ctx):
         ec.replay_mem_programs(ctx, behs, "memmix", mstats)
         del behs
 
+    # ---- 4. interpreter loop on raw bytes: jump destination analysis, JUMP / JUMPI, stack bounds ----------------------------
+    jstats = ec.new_jump_stats()
+    behs, r = ec.export_jump_programs(ctx)
+    exhaustive = exhaustive and r.ok
+    demo4 = ec.jump_binding_demo(ctx, behs)
+    ec.replay_jump_programs(ctx, behs, "jump", jstats)
+    del behs
+
     join_selfcheck()
 
-    ctx.cov["binding_demo"] = demo1 + "; " + (demo2 or "") + "; " + demo3
+    ctx.cov["binding_demo"] = demo1 + "; " + (demo2 or "") + "; " + demo3 + "; " + demo4
+    ctx.cov["byte_programs_replayed_on_real_interpreter_twice"] = jstats["replayed"]
+    ctx.cov["byte_programs_conforming"] = jstats["conform"]
+    ctx.cov["byte_programs_jumping_into_push_data"] = jstats["jump_into_immediate"]
+    ctx.cov["byte_programs_jumping_into_push_data_straddling_an_8_byte_boundary"] = jstats["immediate_straddles_boundary"]
+    ctx.cov["byte_programs_with_truncated_push"] = jstats["truncated_push"]
+    ctx.cov["byte_programs_stack_bounds"] = jstats["stack"]
     ctx.cov["memory_programs_replayed_on_real_evm"] = mstats["replayed"]
     ctx.cov["memory_programs_conforming"] = mstats["conform"]
     ctx.cov["memory_programs_reading_the_buffer_after_a_call"] = mstats["nontrivial"]
@@ -78,9 +94,10 @@ def run(ctx):
     ctx.cov["programs_matching_only_immediate_selfdestruct_variant"] = stats["known_sd"]
     ctx.cov["programs_with_failed_frame"] = stats["with_failed_frame"]
     ctx.cov["programs_with_static_frame"] = stats["with_static_frame"]
-    ctx.cov["traces_validated_against_impl"] += stats["replayed"] + mstats["replayed"]
-    ctx.cov["evaluations"] = summary.get("vectors", 0) + stats["replayed"] + mstats["replayed"]
-    ctx.cov["distinct_nontrivial"] = summary.get("distinct_multilimb", 0) + stats["nested"] + mstats["nontrivial"]
+    ctx.cov["traces_validated_against_impl"] += stats["replayed"] + mstats["replayed"] + jstats["replayed"]
+    ctx.cov["evaluations"] = summary.get("vectors", 0) + stats["replayed"] + mstats["replayed"] + jstats["replayed"]
+    ctx.cov["distinct_nontrivial"] = (summary.get("distinct_multilimb", 0) + stats["nested"] + mstats["nontrivial"]
+                                      + jstats["jump_into_immediate"] + jstats["stack"])
     ctx.cov["rule"] = ("evaluations = instruction vectors executed by the real interpreter + programs executed by the real EVM. "
                        "Vectors: fixed boundary cross products per instruction plus seeded random operands; distinct (op,a,b,c) with "
                        "an operand >= 2^15 (more than one limb) count as non-trivial. Programs: every program of the BFS profiles "
@@ -88,10 +105,11 @@ def run(ctx):
                        "non-trivial when the real EVM entered at least one nested call frame. Memory programs (stage 2): every program "
                        "of MC_EvmMemory's BFS profiles alias/create/window (thorough: plus de-duplicated random 'mix' programs); "
                        "non-trivial when the entry contract made a call/creation and then read the return data buffer "
-                       "(RETURNDATASIZE or RETURNDATACOPY)")
+                       "(RETURNDATASIZE or RETURNDATACOPY). Byte programs (step 4): every program of MC_EvmJump, each executed twice; "
+                       "non-trivial = a jump into PUSH data (reference: invalid jump) or a stack-bound program")
     ctx.cov["exhaustive"] = bool(exhaustive)
     ctx.cov["exhaustive_note"] = ("program profiles fixed/depth3/calls2/create/createv/destruct (EvmFrames) and alias/create/window "
-                                  "(EvmMemory) are enumerated completely by TLC (BFS) and all replayed; the mix profiles and the "
+                                  "(EvmMemory) and the byte programs of MC_EvmJump are enumerated completely by TLC (BFS) and all replayed; the mix profiles and the "
                                   "word vectors are sampled")
     ctx.assumptions += [
         "keccak / address derivation are oracles: created addresses are read from the run, not predicted",
